@@ -48,6 +48,8 @@ PRED_OPTS = [  # (argv fragment, expected: 'auto' | list | 'reject')
     (["{O}=a/1,a/2"], [("a", 1), ("a", 2)]),
     (["{O}=b/2,a/1,b/0"], [("b", 2), ("a", 1), ("b", 0)]),
     (["{O}=a/1,a/1"], [("a", 1), ("a", 1)]),
+    (["{O}=litCount/1,a_B/2"], [("litCount", 1), ("a_B", 2)]),
+    (["{O}=aUTO/0"], [("aUTO", 0)]),
     (["{O}=a"], "reject"),
     (["{O}=a/x"], "reject"),
     (["{O}=a/1/2"], "reject"),
